@@ -24,6 +24,7 @@ type expCase struct {
 	Spec           *gspec                 `json:"spec,omitempty"` // generator-level form (enough to rebuild Docs)
 	Opts           expOpts                `json:"opts"`
 	FailLoads      []string               `json:"fail_loads,omitempty"` // URLs the loader refuses
+	Garble         bool                   `json:"garble,omitempty"`     // the refused URLs are answered with a truncated body instead of an error
 	Choices        []int                  `json:"choices,omitempty"`    // explorer choices (map orders) of the failing execution
 	MapBound       int                    `json:"map_bound"`            // map-order deviations explored when enumerating
 	noGlobalLoader bool                   // do not install the loader as the package-level PathLoader (concurrent harnesses)
@@ -68,6 +69,12 @@ func (c *expCase) loader(log *[]string) func(string) (json.RawMessage, error) {
 	return func(p string) (json.RawMessage, error) {
 		*log = append(*log, p)
 		if fail[p] {
+			if c.Garble {
+				if d, ok := c.Docs[p]; ok && len(d) > 2 {
+					return append(json.RawMessage{}, d[:len(d)/2]...), nil
+				}
+				return json.RawMessage(`{"definitions":`), nil
+			}
 			return nil, fmt.Errorf("loader refuses %s", p)
 		}
 		d, ok := c.Docs[p]
